@@ -123,47 +123,73 @@ def run_groups(groups, pid, tier, jobs=8):
                 for h in hs:
                     out["harnesses"].append(dict(h, status="undecided", detail="injection failed: %s" % e))
                 continue
-            cmd = ["cargo", "kani", "-p", g["crate"], "-Z", "function-contracts", "-Z", "stubbing"] + g.get("flags", [])
-            for h in hs:
-                cmd += ["--harness", h["name"]]
-            if len(hs) > 1:
-                cmd += ["-j", str(min(jobs, len(hs))), "--output-format=terse"]
+            base = ["cargo", "kani", "-p", g["crate"], "-Z", "function-contracts", "-Z", "stubbing"] + g.get("flags", [])
             env = dict(os.environ, CARGO_NET_OFFLINE="true", CARGO_TARGET_DIR=os.path.join(scratch, "target"))
-            out["cmds"].append("CARGO_NET_OFFLINE=true " + " ".join(cmd) + "   (in a scratch copy of /repo with units/kani/%s injected)" % gname)
+            hto = g.get("harness_timeout_s", 900 if tier == "quick" else 3000)
+            out["cmds"].append("CARGO_NET_OFFLINE=true " + " ".join(base) + " --harness <each of: %s>   (one process per harness, timeout %ds, in a scratch copy of /repo with units/kani/%s injected)"
+                               % (", ".join(h["name"] for h in hs), hto, gname))
             t0 = time.time()
-            to = g.get("timeout_s", 1500 if tier == "quick" else 3600)
-            try:
-                p = subprocess.run(["timeout", str(to)] + cmd, cwd=dst, env=env, capture_output=True, text=True)
-                txt = p.stdout + "\n" + p.stderr
-                rc = p.returncode
-            except Exception as e:  # noqa
-                txt, rc = "runner error: %s" % e, 99
+            # 1. build once (all harnesses are compiled in one pass and cached)
+            bp = subprocess.run(["timeout", "1800"] + base + ["--only-codegen"], cwd=dst, env=env, capture_output=True, text=True)
+            build_txt = bp.stdout + "\n" + bp.stderr
+            results = {}
+            if bp.returncode != 0:
+                for h in hs:
+                    results[h["name"]] = (None, "build failed (rc=%s): %s" % (bp.returncode, build_txt[-1500:]), 0.0)
+            else:
+                # 2. one cargo-kani process per harness, in parallel
+                import concurrent.futures
+
+                def run_one(h):
+                    t1 = time.time()
+                    c = base + ["--harness", h["name"]]
+                    try:
+                        q = subprocess.run(["timeout", str(hto)] + c, cwd=dst, env=env, capture_output=True, text=True)
+                        return h["name"], q.returncode, q.stdout + "\n" + q.stderr, time.time() - t1
+                    except Exception as e:  # noqa
+                        return h["name"], 99, "runner error: %s" % e, time.time() - t1
+
+                with concurrent.futures.ThreadPoolExecutor(max_workers=jobs) as ex:
+                    for nm, rc_, txt_, dt in ex.map(run_one, hs):
+                        results[nm] = (rc_, txt_, dt)
             wall = time.time() - t0
             try:
                 os.makedirs(os.path.join(ROOT, "out"), exist_ok=True)
                 with open(os.path.join(ROOT, "out", "kani_%s_%s.log" % (gname, pid)), "w") as lf:
-                    lf.write(txt)
+                    lf.write(build_txt[-5000:])
+                    for nm, (rc_, txt_, dt) in results.items():
+                        lf.write("\n===== %s rc=%s %.0fs\n%s" % (nm, rc_, dt, txt_[-20000:]))
             except OSError:
                 pass
-            parsed = parse_output(txt, [h["name"] for h in hs])
             for h in hs:
-                r = parsed.get(h["name"])
+                rc_, txt_, dt = results[h["name"]]
                 hh = dict(h)
                 hh["file"] = h.get("target", "").split("::")[0]
-                if r is None or r["verdict"] is None:
+                parsed = parse_output(txt_, [h["name"]]) if rc_ is not None else {}
+                r = parsed.get(h["name"])
+                timed_out = (rc_ == 124) or ("timed out" in (txt_ or ""))
+                if rc_ is None:
                     hh["status"] = "undecided"
-                    tail = txt[-1200:] if rc != 0 else ""
-                    hh["detail"] = "no verdict (rc=%s, %.0fs)%s" % (rc, wall, (": " + tail) if tail else "")
+                    hh["detail"] = txt_
+                elif timed_out:
+                    hh["status"] = "undecided"
+                    hh["detail"] = "timeout after %.0fs" % dt
+                elif r is None or r["verdict"] is None:
+                    hh["status"] = "undecided"
+                    hh["detail"] = "no verdict (rc=%s, %.0fs): %s" % (rc_, dt, (txt_ or "")[-800:])
                 elif r["verdict"] == "SUCCESSFUL":
-                    if r["cover"] is not None and r["cover"][0] < r["cover"][1]:
+                    want_unsat = h.get("expect_cover_unsat", False)
+                    if r["cover"] is not None and r["cover"][0] < r["cover"][1] and not want_unsat:
                         hh["status"] = "undecided"
                         hh["detail"] = "vacuous: only %d of %d cover properties satisfied" % r["cover"]
+                    elif want_unsat and r["cover"] is not None and r["cover"][0] > 0:
+                        hh["status"] = "failed"
+                        hh["output"] = "Kani harness %s: a cover property expected to be unreachable was reached\n%s" % (h["name"], r["body"][-2000:])
                     else:
                         hh["status"] = "ok"
                     hh["time_s"] = r["time_s"]
                     hh["cover"] = r["cover"]
                 else:
-                    # unwinding-assertion-only failures of a bounded harness are 'bound too small', not violations
                     fc = " ".join(r["failed_checks"])
                     only_unwind = r["failed_checks"] and all("unwinding assertion" in x for x in r["failed_checks"])
                     if only_unwind:
@@ -173,15 +199,14 @@ def run_groups(groups, pid, tier, jobs=8):
                         hh["status"] = "failed"
                         hh["output"] = "Kani harness %s FAILED\n%s" % (h["name"], r["body"][-2500:])
                         hh["time_s"] = r["time_s"]
-                out["solver_s"] += r["time_s"] or 0 if r else 0
+                out["solver_s"] += (r["time_s"] or 0) if r else 0
                 out["harnesses"].append(hh)
             # concrete playback for failures (second invocation, one harness at a time)
             for hh in out["harnesses"]:
                 if hh.get("status") == "failed" and "playback" not in hh and hh["name"] in [h["name"] for h in hs]:
-                    pc = ["cargo", "kani", "-p", g["crate"], "-Z", "function-contracts", "-Z", "stubbing", "-Z", "concrete-playback",
-                          "--concrete-playback=print", "--harness", hh["name"]] + g.get("flags", [])
+                    pc = base + ["-Z", "concrete-playback", "--concrete-playback=print", "--harness", hh["name"]]
                     try:
-                        pp = subprocess.run(["timeout", "900"] + pc, cwd=dst, env=env, capture_output=True, text=True)
+                        pp = subprocess.run(["timeout", "600"] + pc, cwd=dst, env=env, capture_output=True, text=True)
                         m = re.search(r"Concrete playback unit test for `[^`]*`:\s*```(.*?)```", pp.stdout, re.S)
                         if m:
                             hh["playback"] = m.group(1).strip()[:6000]
